@@ -691,8 +691,16 @@ impl<'a, BF: PrimeField64, EF: ExtensionField<BF>> Gen<'a, BF, EF> {
                     })
                     .collect();
                 let mut acc = if self.rng.chance(2, 3) {
-                    let r = self.any();
-                    self.op2(0, r, prods[0])
+                    // the seed of the running sum is an existing value, or (half of the time) a sum
+                    // computed only now, after all the products: a fused add whose addend is
+                    // defined later than its product
+                    let r = if self.rng.chance(1, 2) {
+                        let (f, g) = (self.any(), self.any());
+                        self.op2(0, f, g)
+                    } else {
+                        self.any()
+                    };
+                    if self.rng.chance(1, 2) { self.op2(0, r, prods[0]) } else { self.op2(0, prods[0], r) }
                 } else {
                     prods[0]
                 };
